@@ -81,6 +81,13 @@ class Canon(ast.NodeTransformer):
                 and not (len(node.orelse) == 1 and isinstance(node.orelse[0], ast.If)):
             node.test = negate(node.test)
             node.body, node.orelse = node.orelse, node.body
+        # if A: (if B: X)   ->   if A and B: X        (neither has an else)
+        if not node.orelse and len(node.body) == 1 and isinstance(node.body[0], ast.If) and not node.body[0].orelse:
+            inner = node.body[0]
+            vals = (node.test.values if isinstance(node.test, ast.BoolOp) and isinstance(node.test.op, ast.And) else [node.test]) + \
+                (inner.test.values if isinstance(inner.test, ast.BoolOp) and isinstance(inner.test.op, ast.And) else [inner.test])
+            node.test = ast.copy_location(ast.BoolOp(op=ast.And(), values=list(vals)), node.test)
+            node.body = inner.body
         return node
 
     def visit_IfExp(self, node: ast.IfExp):
@@ -416,6 +423,7 @@ class Desugar(ast.NodeTransformer):
         saved = getattr(self, 'loads', None)
         self.loads = Counter(x.id for x in ast.walk(node) if isinstance(x, ast.Name) and isinstance(x.ctx, ast.Load))
         self.stores = Counter(x.id for x in ast.walk(node) if isinstance(x, ast.Name) and isinstance(x.ctx, ast.Store))
+        self.attr_stores = {ast.unparse(x) for x in ast.walk(node) if isinstance(x, ast.Attribute) and isinstance(x.ctx, (ast.Store, ast.Del))}
         # D7: "<literal template>".format(a, b, k=v)  ->  f-string (only for templates that are string literals, directly or through a local bound once)
         const_locals = {}
         for x in ast.walk(node):
@@ -430,6 +438,98 @@ class Desugar(ast.NodeTransformer):
             return self.generic_visit(node)
         finally:
             self.loads = saved
+
+    def _d8(self, body: List[ast.stmt]) -> List[ast.stmt]:
+        """D8: a local list built from a display and (conditional) appends and then only iterated:
+               L = [a] ; if C: L.append(b) ; for k in L: BODY      ->      BODY[k:=a] ; if C: BODY[k:=b]
+        Only when L (and plain aliases of it) has no other use, the loop bodies have no break/continue/else and do not mention L, and nothing in the function
+        assigns the names / attribute paths C reads (so C means the same at the loop as at the append)."""
+        import copy
+        if getattr(self, 'loads', None) is None:
+            return body
+        body = list(body)
+        j = 0
+        while j < len(body):
+            st = body[j]
+            j += 1
+            if not (isinstance(st, ast.Assign) and len(st.targets) == 1 and isinstance(st.targets[0], ast.Name) and isinstance(st.value, ast.List)
+                    and 1 <= len(st.value.elts) <= 6 and all(_pure_cell(e) and not isinstance(e, ast.Lambda) for e in st.value.elts)
+                    and self.stores.get(st.targets[0].id, 0) == 1):
+                continue
+            names = {st.targets[0].id}
+            elems = [(None, e) for e in st.value.elts]
+            consumed = [j - 1]
+            loops: List[int] = []
+            accounted = 0
+            ok = True
+            for k in range(j, len(body)):
+                s2 = body[k]
+                if not any(isinstance(x, ast.Name) and x.id in names for x in ast.walk(s2)):
+                    continue
+
+                def is_append(e):
+                    return isinstance(e, ast.Expr) and isinstance(e.value, ast.Call) and isinstance(e.value.func, ast.Attribute) and e.value.func.attr == 'append' \
+                        and isinstance(e.value.func.value, ast.Name) and e.value.func.value.id in names and len(e.value.args) == 1 and not e.value.keywords \
+                        and _pure_cell(e.value.args[0]) and not isinstance(e.value.args[0], ast.Lambda) \
+                        and not any(isinstance(x, ast.Name) and x.id in names for x in ast.walk(e.value.args[0]))
+                if is_append(s2) and not loops:
+                    elems.append((None, s2.value.args[0]))
+                    consumed.append(k)
+                    accounted += 1
+                elif isinstance(s2, ast.If) and not s2.orelse and len(s2.body) == 1 and is_append(s2.body[0]) and not loops and _pure_cell(s2.test) \
+                        and not any(isinstance(x, ast.Name) and x.id in names for x in ast.walk(s2.test)):
+                    elems.append((s2.test, s2.body[0].value.args[0]))
+                    consumed.append(k)
+                    accounted += 1
+                elif isinstance(s2, ast.Assign) and len(s2.targets) == 1 and isinstance(s2.targets[0], ast.Name) and isinstance(s2.value, ast.Name) and s2.value.id in names \
+                        and self.stores.get(s2.targets[0].id, 0) == 1:
+                    names.add(s2.targets[0].id)
+                    consumed.append(k)
+                    accounted += 1
+                elif isinstance(s2, ast.For) and isinstance(s2.iter, ast.Name) and s2.iter.id in names and isinstance(s2.target, ast.Name) and not s2.orelse \
+                        and not any(isinstance(x, (ast.Break, ast.Continue)) for b in s2.body for x in ast.walk(b)) \
+                        and not any(isinstance(x, ast.Name) and (x.id in names or (x.id == s2.target.id and isinstance(x.ctx, ast.Store))) for b in s2.body for x in ast.walk(b)):
+                    loops.append(k)
+                    accounted += 1
+                else:
+                    ok = False
+                    break
+            if not ok or not loops or accounted != sum(self.loads.get(n, 0) for n in names):
+                continue
+            # the conditions must mean the same where the loops stand
+            stable = True
+            for c, _ in elems:
+                if c is None:
+                    continue
+                for x in ast.walk(c):
+                    if isinstance(x, ast.Name) and self.stores.get(x.id, 0) > 0:
+                        stable = False
+                    if isinstance(x, ast.Attribute) and ast.unparse(x) in self.attr_stores:
+                        stable = False
+            if not stable:
+                continue
+            new_body: List[ast.stmt] = []
+            for k, s2 in enumerate(body):
+                if k in consumed:
+                    continue
+                if k in loops:
+                    for c, e in elems:
+                        copies = [_Subst({s2.target.id: e}).visit(copy.deepcopy(b)) for b in s2.body]
+                        if c is not None:
+                            copies = [ast.If(test=copy.deepcopy(c), body=copies, orelse=[])]
+                        for nb in copies:
+                            for x in ast.walk(nb):
+                                if not hasattr(x, 'lineno'):
+                                    ast.copy_location(x, s2)
+                            ast.copy_location(nb, s2)
+                            new_body.append(nb)
+                    continue
+                new_body.append(s2)
+            for n in names:
+                self.loads[n] = 0
+            body = new_body
+            j = 0
+        return body
 
     def _body(self, body: List[ast.stmt], local_tables=None) -> List[ast.stmt]:
         import copy
@@ -452,6 +552,7 @@ class Desugar(ast.NodeTransformer):
                     del body[j]
                     continue
             j += 1
+        body = self._d8(body)
         local_tables = dict(local_tables or {})
         out: List[ast.stmt] = []
         i = 0
